@@ -341,6 +341,9 @@ impl HttpConnection {
     }
 
     pub async fn send(&self, body: EncodedPayload, timeout: Duration) -> Result<Vec<u8>, Error> {
+        #[cfg(emit_rs_emit_verif)]
+        let timeout = crate::verif::request_timeout(timeout);
+
         let res = tokio::time::timeout(timeout, async {
             let mut sender = match self.poison() {
                 Some(sender) => sender,
